@@ -16,7 +16,30 @@ def build_opt(name, space, init=None, constraints=None, seed=0, cfg=None):
     return cls(space, **kw)
 
 
-def run_case(spec):
+class Hang(BaseException):
+    pass
+
+
+def _alarm(signum, frame):
+    raise Hang("step did not finish within the watchdog limit")
+
+
+def run_case(spec, timeout_s=30):
+    """Runs one spec under a wall-clock watchdog (SIGALRM): a livelock becomes exc=('Hang', ...)."""
+    import signal
+    old = signal.signal(signal.SIGALRM, _alarm)
+    signal.alarm(int(spec.get("timeout_s", timeout_s)))
+    try:
+        return _run_case(spec)
+    except Hang as e:
+        import traceback
+        return dict(obs=[], exc=("Hang", str(e), traceback.format_exc()[-1500:]), obj=None, clock=None, opt=None, lit=None, phase="hang")
+    finally:
+        signal.alarm(0)
+        signal.signal(signal.SIGALRM, old)
+
+
+def _run_case(spec):
     """spec: dict(name, space, table, script, durations, calls, init, feasible, cfg, seed, steps_api,
     read_cost, scalar, default_duration).  Returns dict(obs, exc, obj, clock, opt, lit)."""
     space = spec["space"]
